@@ -55,6 +55,7 @@ def run(ctx):
     h_p = ("param", 2, ah.local_name(2))
 
     # ---- census -----------------------------------------------------------------------
+    from .common import join_store, elementwise_reset
     n = 0
     for m in sorted(methods_of(prog, HLL), key=lambda f: f.key):
         if not has_self_receiver(m) or m.impl_derived:
@@ -74,6 +75,10 @@ def run(ctx):
                     e = erase_param_names(elem_of(v[2][0]))
                     if e[0] == "op" and e[1] == "max" and {repr(x) for x in e[2]} == {repr(("elem", ("field", ("param", 1, None), "registers"))), repr(("elem", ("field", ("param", 2, None), "registers")))}:
                         kind = "max"
+                elif not whole and m.key == ah.key and join_store(ctx, ah, "registers")["form"] is not None:
+                    kind = "max"
+                elif not whole and elementwise_reset(ctx, m, "registers"):
+                    kind = "reset"
                 elif not whole and v[0] == "op" and v[1] == "max":
                     # one side must be the old value of the same cell
                     idx = [x for x in w_index_terms(ctx, m)]
@@ -85,19 +90,12 @@ def run(ctx):
                       "%s writes `registers` with something other than max(old, new) / zero-fill: %s" % (m.name, fmt(v)[:200] if v else w.get("name")))
     ctx.floor("R17-max-only", n, 3, "writers of registers (add_hashed, merge, clear)")
 
-    # the join must be applied on every call: exactly one registers store on every returning path of add_hashed
-    from ..paths import PathEnumerator
-    pe = PathEnumerator(ah, prog, ctx.summ)
-    npaths, bad = 0, 0
-    for p in pe.paths():
-        if p.exit_kind != "return":
-            continue
-        npaths += 1
-        st = [e for e in p.events if e["kind"] == "write" and self_field(e) == "registers" and e["how"] == "store"]
-        if len(st) != 1:
-            bad += 1
-    ctx.check(npaths >= 1 and bad == 0, "R17-max-only", ah.key + ":unconditional", ah, "registers[j] = max(old, p) is executed on every path (%d)" % npaths,
-              "add_hashed skips the register update on %d of %d paths: a conditional update makes the register depend on the order of adds" % (bad, npaths))
+    # the join must be applied on every call (or skipped exactly when it is a no-op)
+    from .common import join_store, elementwise_reset
+    js = join_store(ctx, ah, "registers")
+    ctx.check(js["form"] is not None, "R17-max-only", ah.key + ":unconditional", js.get("span", ah),
+              "registers[j] is joined with the new rank on every path (%s)" % js.get("form"),
+              "add_hashed: %s" % js.get("why"))
 
     # ---- index / rank ------------------------------------------------------------------------
     tb = TermBuilder(ah, prog)
@@ -112,8 +110,9 @@ def run(ctx):
               "register index %s is not `hash mod 2^b`" % (fmt(idxs[0]) if idxs else "<none>"))
     ok_p = False
     desc = ""
-    if len(vals) == 1 and vals[0][0] == "op" and vals[0][1] == "max":
-        new = [x for x in vals[0][2] if not (x[0] == "index")]
+    js2 = join_store(ctx, ah, "registers")
+    if js2["form"] is not None:
+        new = [js2["new"]]
         if len(new) == 1:
             p = new[0]
             desc = fmt(p)
